@@ -75,7 +75,8 @@ def run(ctx):
             check_next(ctx, v, t["args"][2], sb, loaded("epoch_manager::state::EPOCH", "id"), prev_start, dur, p, genesis=None)
         # E5 hooks
         hooks = v.calls_to(r"^cw_controllers::Hooks::prepare_hooks$")
-        adds = v.calls_to(r"^cosmwasm_std::Response::add_submessages$")
+        # attached in one call or element by element (`for m in messages { response = response.add_submessage(m) }`)
+        adds = v.calls_to(r"^cosmwasm_std::Response::add_submessages?$")
         ok = len(hooks) == 1 and len(adds) >= 1
         if ok:
             hb, ht = hooks[0]
@@ -402,16 +403,14 @@ def check_hooks_carry_the_new_epoch(ctx, model):
     for sb, t in saves:
         saved |= {(o.kind, o.a, o.b, tuple(o.proj)) for o in v.origins_of_operand(t["args"][2], at=v.at_term(sb))}
     told = set()
-    for hb, ht in hooks:
-        for o in v.origins_of_operand(ht["args"][2], at=v.at_term(hb)):
-            if o.kind == "closure" and o.a in model.fnsrc:
-                cv = model.view(o.a)
-                chain = ((v.path, hb, "closure"),)
-                for b, i, s_ in cv.iter_stmts():
-                    rv = s_["rv"]
-                    if rv["r"] == "agg" and rv.get("adt", "").endswith("EpochChangedHookMsg"):
-                        f = dict(zip(rv["fields"], rv["ops"]))
-                        for x in resolve(model, chain, cv, cv.origins_of_operand(f["current_epoch"], at=(b, i))):
-                            told.add((x.kind, x.a, x.b, tuple(x.proj)))
+    # the payload is built inside the prepare_hooks closure or once, before it, in the function: wherever it is built
+    from .common import scope_views, scope_origins
+    for cv, chain in scope_views(model, p):
+        for b, i, s_ in cv.iter_stmts():
+            rv = s_["rv"]
+            if rv["r"] == "agg" and rv.get("adt", "").endswith("EpochChangedHookMsg"):
+                f = dict(zip(rv["fields"], rv["ops"]))
+                for x in scope_origins(model, chain, cv, f["current_epoch"], (b, i)):
+                    told.add((x.kind, x.a, x.b, tuple(x.proj)))
     ctx.ob("C20-E5", "%s|hooks-are-told-the-saved-epoch" % p, bool(told) and told == saved,
            "hook payload epoch from %s; saved epoch from %s" % (sorted(map(str, told))[:4], sorted(map(str, saved))[:4]), v.where(hooks[0][0]))
